@@ -51,9 +51,14 @@ impl Clone for Bytecode {
     fn clone(&self) -> (r: Self) ensures r == *self { unimplemented!() }
 }
 
-#[verifier::external_body]
+// revm::state::AccountInfo: public fields under revm's names
 #[derive(PartialEq, Eq, Hash)]
-pub struct AccountInfo { _p: () }
+pub struct AccountInfo { pub balance: U256, pub nonce: u64, pub code_hash: B256, pub code: Option<Bytecode> }
+impl AccountInfo {
+    // revm's Default: nothing is assumed about the default values (every field the kernel stores is assigned afterwards)
+    #[verifier::external_body]
+    pub fn default() -> (r: AccountInfo) { unimplemented!() }
+}
 
 impl Clone for AccountInfo {
     #[verifier::external_body]
@@ -100,9 +105,9 @@ impl Decode for U512ED {
     fn decode(bytes: &[u8], offset: usize) -> (r: Result<(Self, usize), VErr>) { unimplemented!() }
 }
 
-#[verifier::external_body]
+// UintED<256, 4> of uint_ed.rs: the field the kernel reads keeps its name
 #[derive(PartialEq, Eq, Hash)]
-pub struct U256ED { _p: () }
+pub struct U256ED { pub uint: U256 }
 
 impl Clone for U256ED {
     #[verifier::external_body]
@@ -122,9 +127,8 @@ impl Decode for U256ED {
     fn decode(bytes: &[u8], offset: usize) -> (r: Result<(Self, usize), VErr>) { unimplemented!() }
 }
 
-#[verifier::external_body]
 #[derive(PartialEq, Eq, Hash)]
-pub struct BytecodeED { _p: () }
+pub struct BytecodeED { pub bytecode: Bytecode }
 
 impl Clone for BytecodeED {
     #[verifier::external_body]
@@ -144,9 +148,9 @@ impl Decode for BytecodeED {
     fn decode(bytes: &[u8], offset: usize) -> (r: Result<(Self, usize), VErr>) { unimplemented!() }
 }
 
-#[verifier::external_body]
+// account_info_ed.rs: the three stored fields (the struct text itself is compared with the source by unit codec, N37)
 #[derive(PartialEq, Eq, Hash)]
-pub struct AccountInfoED { _p: () }
+pub struct AccountInfoED { pub balance: U256ED, pub nonce: U64ED, pub code_hash: B256ED }
 
 impl Clone for AccountInfoED {
     #[verifier::external_body]
@@ -467,22 +471,22 @@ impl From<Address> for AddressED {
     fn from(b: Address) -> (r: AddressED) ensures r == addressed_of(b) { unimplemented!() }
 }
 
-pub uninterp spec fn u256ed_of(b: U256) -> U256ED;
+pub open spec fn u256ed_of(b: U256) -> U256ED { U256ED { uint: b } }
 impl From<U256> for U256ED {
     #[verifier::external_body]
     fn from(b: U256) -> (r: U256ED) ensures r == u256ed_of(b) { unimplemented!() }
 }
 
-pub uninterp spec fn bytecodeed_of(b: Bytecode) -> BytecodeED;
+pub open spec fn bytecodeed_of(b: Bytecode) -> BytecodeED { BytecodeED { bytecode: b } }
 impl From<Bytecode> for BytecodeED {
     #[verifier::external_body]
     fn from(b: Bytecode) -> (r: BytecodeED) ensures r == bytecodeed_of(b) { unimplemented!() }
 }
 
-pub uninterp spec fn accountinfoed_of(b: AccountInfo) -> AccountInfoED;
-impl From<AccountInfo> for AccountInfoED {
-    #[verifier::external_body]
-    fn from(b: AccountInfo) -> (r: AccountInfoED) ensures r == accountinfoed_of(b) { unimplemented!() }
+// what AccountInfoED::new must build (C13: the row stored for an account is its balance, nonce and code hash); the
+// conversions themselves (new / from / into of account_info_ed.rs) are extracted and proved in unit dbfacade
+pub open spec fn accountinfoed_of(b: AccountInfo) -> AccountInfoED {
+    AccountInfoED { balance: u256ed_of(b.balance), nonce: u64ed_of(b.nonce), code_hash: b256ed_of(b.code_hash) }
 }
 
 pub uninterp spec fn u64ed_of(b: u64) -> U64ED;
@@ -524,6 +528,21 @@ impl B256 {
     #[verifier::external_body]
     pub const ZERO: B256 = B256 { _p: () };
 }
+impl U256 {
+    #[verifier::external_body]
+    pub const ZERO: U256 = U256 { _p: () };
+}
+impl Bytecode {
+    // revm_bytecode::Bytecode::new(): the empty (STOP) bytecode
+    pub uninterp spec fn new_spec() -> Bytecode;
+    #[verifier::external_body]
+    pub fn new() -> (r: Bytecode) ensures r == Bytecode::new_spec() { unimplemented!() }
+}
+// `res.unwrap_or(d)` on a Result (std)
+#[verifier::external_body]
+pub fn result_unwrap_or<T, E>(r: Result<T, E>, d: T) -> (o: T)
+    ensures o == (match r { Ok(v) => v, Err(_) => d }),
+{ r.unwrap_or(d) }
 
 // serde_either::SingleOrVec (topic filter position: one value or a list of alternatives)
 pub enum SingleOrVec<T> {
